@@ -142,7 +142,7 @@ def apply_instructions(
     """
     # construct the vehicle state transitions
 
-    results: List[InstructionResult] = []
+    results: List[Tuple[Instruction, InstructionResult]] = []
     for instruction in instructions:
         err, instruction_result = instruction.apply_instruction(sim, env)
         if err is not None:
@@ -152,14 +152,9 @@ def apply_instructions(
             log.error("this should not be none if error is not none")
             continue
 
-        updated_instructions = sim.applied_instructions.update(
-            {instruction.vehicle_id: instruction}
-        )
-        sim = sim._replace(applied_instructions=updated_instructions)
+        results.append((instruction, instruction_result))
 
-        results.append(instruction_result)
-
-    for instruction_result in results:
+    for instruction, instruction_result in results:
         result = entity_state_ops.transition_previous_to_next(
             sim, env, instruction_result.prev_state, instruction_result.next_state
         )
@@ -170,7 +165,12 @@ def apply_instructions(
         elif updated_sim is None:
             continue
         else:
-            sim = updated_sim
+            # only an instruction that took effect is recorded as applied; a rejected one
+            # must leave the simulation state untouched
+            updated_instructions = updated_sim.applied_instructions.update(
+                {instruction.vehicle_id: instruction}
+            )
+            sim = updated_sim._replace(applied_instructions=updated_instructions)
 
     return sim
 
